@@ -42,10 +42,10 @@ from pony.orm.core import DBSchemaError
 DIALECTS = ('sqlite', 'postgres', 'mysql', 'oracle')
 THOROUGH = os.environ.get('C26_THOROUGH') == '1'
 # identifier pool: all strings of length 1..2 over {a, A, _} (12); thorough adds a second letter and a digit
-_AL = 'aA_'
+_AL = 'aA_b' if THOROUGH else 'aA_'
 POOL = [a + b for a in ('',) + tuple(_AL) for b in _AL]
-POOL1 = list(_AL)
-assert len(POOL) == 12
+POOL1 = ['a', 'A', '_a'] + (['b'] if THOROUGH else [])      # column names ("_a": separator ambiguity with table "a_")
+NP, NP1 = len(POOL), len(POOL1)          # 12 and 3 (thorough: 20 and 4)
 _prov_cache = {}
 
 
@@ -123,38 +123,45 @@ def normalize_name(dialect: int, s: str, limit: int) -> bool:
     return ok(r == s[:lim] and len(r) <= lim and prov.normalize_name(r) == r)
 
 
-def normalize_name_fold(dialect: int, a: int, b: int, c: int, limit: int) -> bool:
+def normalize_name_fold(dialect: int, a: int, b: int, limit: int) -> bool:
     """
     pre: 0 <= dialect < 4
-    pre: 0 <= a < 12 and 0 <= b < 12 and 0 <= c < 12
-    pre: 1 <= limit <= 6
+    pre: 0 <= a < NP and 0 <= b < NP
+    pre: 1 <= limit <= 4
     post: _
     """
-    lim = conc(limit, 7)
+    lim = conc(limit - 1, 4) + 1
     pname = DIALECTS[conc(dialect, 4)]
-    s = POOL[conc(a, 12)] + POOL[conc(b, 12)] + POOL[conc(c, 12)]
+    s = POOL[conc(a, NP)] + POOL[conc(b, NP)]
     with NoTracing():
         prov = provider(pname, lim)
         r = prov.normalize_name(s)
         return ok(r == fold(pname, s[:lim]) and len(r) <= lim and prov.normalize_name(r) == r)
 
 
-def _two_indexes(pname, limit, t1, c1, t2, c2, u1, u2, m1, m2, pfx):
-    """two default-named index requests through the real Table.add_index; the second table's name may carry the prefix
-    pony itself uses for default names, so that a table name can collide with a generated index name"""
+def _two_indexes(pname, limit, t1, c1, t2, c2, k1, k2, pfx, late=False):
+    """two default-named index requests through the real Table.add_index (k: 0 plain, 1 unique, 2 the m2m template); the
+    second table's name may carry the prefix pony itself uses for default names, so that a table name can collide with a
+    generated index name; `late`: the second table is created after the first index (as m2m tables are)"""
     prov = provider(pname, limit)
     schema = prov.dbschema_cls(prov)
     conv = Conv(int, prov)
+    u1, m1, u2, m2 = k1 == 1, k1 == 2, k2 == 1, k2 == 2
     t2 = ('idx_' if pfx == 1 else ('unq_' if pfx == 2 else '')) + t2
     tab1 = schema.add_table(t1)
-    tab2 = tab1 if t2 == t1 else schema.add_table(t2)
     col1 = tab1.add_column(c1, 'INTEGER', conv, True)
-    col2 = col1 if (tab2 is tab1 and c2 == c1) else tab2.add_column(c2, 'INTEGER', conv, True)
+    late = late and t2 != t1
+    if not late:
+        tab2 = tab1 if t2 == t1 else schema.add_table(t2)
     try:
         ix1 = tab1.add_index(None, (col1,), is_unique=u1, m2m=m1)
     except DBSchemaError:
-        return t2 != t1 and pfx != 0                 # the only legitimate reason: the name is taken by table 2
+        return not late and t2 != t1 and pfx != 0        # the only legitimate reason: the name is taken by table 2
     if not good_name(prov, pname, ix1.name, limit): return False
+    if late:
+        try: tab2 = schema.add_table(t2)
+        except DBSchemaError: return t2 == ix1.name
+    col2 = col1 if (tab2 is tab1 and c2 == c1) else tab2.add_column(c2, 'INTEGER', conv, True)
     try:
         ix2 = tab2.add_index(None, (col2,), is_unique=u2, m2m=m2)
     except DBSchemaError:
@@ -168,56 +175,56 @@ def _two_indexes(pname, limit, t1, c1, t2, c2, u1, u2, m1, m2, pfx):
             and len(names) == len(schema.names))
 
 
-def _index_pair(pname, t1, c1, t2, c2, u):
-    t1, t2, c1, c2, u = POOL[conc(t1, 12)], POOL[conc(t2, 12)], POOL1[conc(c1, 3)], POOL1[conc(c2, 3)], cbool(u)
+def _index_pair(pname, t1, c1, t2, c2):
+    t1, t2, c1, c2 = POOL[conc(t1, NP)], POOL[conc(t2, NP)], POOL1[conc(c1, NP1)], POOL1[conc(c2, NP1)]
     with NoTracing():
-        return ok(_two_indexes(pname, 8, t1, c1, t2, c2, u, u, False, False, 0))
+        return ok(_two_indexes(pname, 9, t1, c1, t2, c2, 0, 0, 0))
 
 
-def index_pair_sqlite(t1: int, c1: int, t2: int, c2: int, u: bool) -> bool:
+def index_pair_sqlite(t1: int, c1: int, t2: int, c2: int) -> bool:
     """
-    pre: 0 <= t1 < 12 and 0 <= t2 < 12 and 0 <= c1 < 3 and 0 <= c2 < 3
+    pre: 0 <= t1 < NP and 0 <= t2 < NP and 0 <= c1 < NP1 and 0 <= c2 < NP1
     post: _
     """
-    return _index_pair('sqlite', t1, c1, t2, c2, u)
+    return _index_pair('sqlite', t1, c1, t2, c2)
 
 
-def index_pair_postgres(t1: int, c1: int, t2: int, c2: int, u: bool) -> bool:
+def index_pair_postgres(t1: int, c1: int, t2: int, c2: int) -> bool:
     """
-    pre: 0 <= t1 < 12 and 0 <= t2 < 12 and 0 <= c1 < 3 and 0 <= c2 < 3
+    pre: 0 <= t1 < NP and 0 <= t2 < NP and 0 <= c1 < NP1 and 0 <= c2 < NP1
     post: _
     """
-    return _index_pair('postgres', t1, c1, t2, c2, u)
+    return _index_pair('postgres', t1, c1, t2, c2)
 
 
-def index_pair_mysql(t1: int, c1: int, t2: int, c2: int, u: bool) -> bool:
+def index_pair_mysql(t1: int, c1: int, t2: int, c2: int) -> bool:
     """
-    pre: 0 <= t1 < 12 and 0 <= t2 < 12 and 0 <= c1 < 3 and 0 <= c2 < 3
+    pre: 0 <= t1 < NP and 0 <= t2 < NP and 0 <= c1 < NP1 and 0 <= c2 < NP1
     post: _
     """
-    return _index_pair('mysql', t1, c1, t2, c2, u)
+    return _index_pair('mysql', t1, c1, t2, c2)
 
 
-def index_pair_oracle(t1: int, c1: int, t2: int, c2: int, u: bool) -> bool:
+def index_pair_oracle(t1: int, c1: int, t2: int, c2: int) -> bool:
     """
-    pre: 0 <= t1 < 12 and 0 <= t2 < 12 and 0 <= c1 < 3 and 0 <= c2 < 3
+    pre: 0 <= t1 < NP and 0 <= t2 < NP and 0 <= c1 < NP1 and 0 <= c2 < NP1
     post: _
     """
-    return _index_pair('oracle', t1, c1, t2, c2, u)
+    return _index_pair('oracle', t1, c1, t2, c2)
 
 
-def index_flags(dialect: int, t1: int, t2: int, c2: int, u1: bool, u2: bool, m1: bool, m2: bool, pfx: int, limit: int) -> bool:
+def index_flags(dialect: int, t2: int, k1: int, k2: int, pfx: int, late: bool) -> bool:
     """
-    pre: 0 <= dialect < 4 and 0 <= t1 < 3 and 0 <= t2 < 12 and 0 <= c2 < 3 and 0 <= pfx <= 2 and 0 <= limit <= 1
+    pre: 0 <= dialect < 4 and 0 <= t2 < NP and 0 <= pfx <= 2 and 0 <= k1 <= 2 and 0 <= k2 <= 2
     post: _
     """
-    # all flag combinations (unique / m2m template / table named like a generated index) on a smaller identifier pool
+    # all template combinations (plain / unique / m2m) x table named like a generated index x creation order; limit 6:
+    # the names are truncated
     pname = DIALECTS[conc(dialect, 4)]
-    t1, t2, c2 = POOL1[conc(t1, 3)], POOL[conc(t2, 12)], POOL1[conc(c2, 3)]
-    u1, u2, m1, m2, pfx = cbool(u1), cbool(u2), cbool(m1), cbool(m2), conc(pfx, 3)
-    lim = 6 if limit == 0 else 8
+    t2 = POOL[conc(t2, NP)]
+    k1, k2, pfx, late = conc(k1, 3), conc(k2, 3), conc(pfx, 3), cbool(late)
     with NoTracing():
-        return ok(_two_indexes(pname, lim, t1, 'a', t2, c2, u1, u2, m1, m2, pfx))
+        return ok(_two_indexes(pname, 6, 'a', 'a', t2, 'a', k1, k2, pfx, late))
 
 
 def _two_fks(pname, limit, t1, c1, t2, c2, ix, pfx):
@@ -257,54 +264,54 @@ def _two_fks(pname, limit, t1, c1, t2, c2, ix, pfx):
     return schema.names.get(fk1.name) is fk1 and schema.names.get(fk2.name) is fk2
 
 
-def _fk_pair(pname, t1, c1, t2, c2, ix):
-    t1, t2, c1, c2, ix = POOL[conc(t1, 12)], POOL[conc(t2, 12)], POOL1[conc(c1, 3)], POOL1[conc(c2, 3)], cbool(ix)
+def _fk_pair(pname, t1, c1, t2, c2):
+    t1, t2, c1, c2 = POOL[conc(t1, NP)], POOL[conc(t2, NP)], POOL1[conc(c1, NP1)], POOL1[conc(c2, NP1)]
     with NoTracing():
-        return ok(_two_fks(pname, 10, t1, c1, t2, c2, ix, 0))
+        return ok(_two_fks(pname, 8, t1, c1, t2, c2, True, 0))
 
 
-def fk_pair_sqlite(t1: int, c1: int, t2: int, c2: int, ix: bool) -> bool:
+def fk_pair_sqlite(t1: int, c1: int, t2: int, c2: int) -> bool:
     """
-    pre: 0 <= t1 < 12 and 0 <= t2 < 12 and 0 <= c1 < 3 and 0 <= c2 < 3
+    pre: 0 <= t1 < NP and 0 <= t2 < NP and 0 <= c1 < NP1 and 0 <= c2 < NP1
     post: _
     """
-    return _fk_pair('sqlite', t1, c1, t2, c2, ix)
+    return _fk_pair('sqlite', t1, c1, t2, c2)
 
 
-def fk_pair_postgres(t1: int, c1: int, t2: int, c2: int, ix: bool) -> bool:
+def fk_pair_postgres(t1: int, c1: int, t2: int, c2: int) -> bool:
     """
-    pre: 0 <= t1 < 12 and 0 <= t2 < 12 and 0 <= c1 < 3 and 0 <= c2 < 3
+    pre: 0 <= t1 < NP and 0 <= t2 < NP and 0 <= c1 < NP1 and 0 <= c2 < NP1
     post: _
     """
-    return _fk_pair('postgres', t1, c1, t2, c2, ix)
+    return _fk_pair('postgres', t1, c1, t2, c2)
 
 
-def fk_pair_mysql(t1: int, c1: int, t2: int, c2: int, ix: bool) -> bool:
+def fk_pair_mysql(t1: int, c1: int, t2: int, c2: int) -> bool:
     """
-    pre: 0 <= t1 < 12 and 0 <= t2 < 12 and 0 <= c1 < 3 and 0 <= c2 < 3
+    pre: 0 <= t1 < NP and 0 <= t2 < NP and 0 <= c1 < NP1 and 0 <= c2 < NP1
     post: _
     """
-    return _fk_pair('mysql', t1, c1, t2, c2, ix)
+    return _fk_pair('mysql', t1, c1, t2, c2)
 
 
-def fk_pair_oracle(t1: int, c1: int, t2: int, c2: int, ix: bool) -> bool:
+def fk_pair_oracle(t1: int, c1: int, t2: int, c2: int) -> bool:
     """
-    pre: 0 <= t1 < 12 and 0 <= t2 < 12 and 0 <= c1 < 3 and 0 <= c2 < 3
+    pre: 0 <= t1 < NP and 0 <= t2 < NP and 0 <= c1 < NP1 and 0 <= c2 < NP1
     post: _
     """
-    return _fk_pair('oracle', t1, c1, t2, c2, ix)
+    return _fk_pair('oracle', t1, c1, t2, c2)
 
 
-def fk_flags(dialect: int, t1: int, t2: int, c2: int, ix: bool, pfx: int, limit: int) -> bool:
+def fk_flags(dialect: int, t2: int, c2: int, ix: bool, pfx: int, limit: int) -> bool:
     """
-    pre: 0 <= dialect < 4 and 0 <= t1 < 3 and 0 <= t2 < 12 and 0 <= c2 < 3 and 0 <= pfx <= 2 and 0 <= limit <= 2
+    pre: 0 <= dialect < 4 and 0 <= t2 < NP and 0 <= c2 < NP1 and 0 <= pfx <= 2 and 0 <= limit <= 1
     post: _
     """
     pname = DIALECTS[conc(dialect, 4)]
-    t1, t2, c2, ix, pfx = POOL1[conc(t1, 3)], POOL[conc(t2, 12)], POOL1[conc(c2, 3)], cbool(ix), conc(pfx, 3)
-    lim = (6, 8, 10)[conc(limit, 3)]
+    t2, c2, ix, pfx = POOL[conc(t2, NP)], POOL1[conc(c2, NP1)], cbool(ix), conc(pfx, 3)
+    lim = 6 if limit == 0 else 8
     with NoTracing():
-        return ok(_two_fks(pname, lim, t1, 'a', t2, c2, ix, pfx))
+        return ok(_two_fks(pname, lim, 'a', 'a', t2, c2, ix, pfx))
 
 
 class _Ent(object):
@@ -317,49 +324,76 @@ class _Attr(object):
     def __init__(self, entity, name, symmetric=False): self.entity, self.name, self.symmetric = entity, name, symmetric
 
 
-def m2m_names(dialect: int, e1: int, e2: int, a1: int, sym: bool, npk: int, p1: int, p2: int, limit: int) -> bool:
-    """
-    pre: 0 <= dialect < 4 and 0 <= e1 < 12 and 0 <= e2 < 12 and 0 <= a1 < 3 and 1 <= npk <= 2 and 0 <= p1 < 3 and 0 <= p2 < 3
-    pre: 0 <= limit <= 1
-    post: _
-    """
+def _m2m(pname, n1, second, sym, npk, pk1, lim):
+    prov = provider(pname, lim)
+    pks = [pk1] if npk == 1 else [pk1, 'A2']
+    ent1 = _Ent(n1, pks)
+    if sym:
+        attr = _Attr(ent1, second, True)
+        ent2 = ent1
+        tname = prov.get_default_m2m_table_name(attr, attr)
+        expected = n1 + '_' + second
+    else:
+        ent2 = _Ent(second, pks)
+        tname = prov.get_default_m2m_table_name(_Attr(ent1, 'x'), _Attr(ent2, 'y'))
+        expected = n1 + '_' + second
+    if not (good_name(prov, pname, tname, lim) and tname == fold(pname, expected[:lim])): return False
+    cols1 = prov.get_default_m2m_column_names(ent1)
+    cols2 = prov.get_default_m2m_column_names(ent2)
+    if not (len(cols1) == len(pks) == len(cols2)): return False
+    # relationship columns of a reference to the entity (attr_name + '_' + pk column when the key is composite)
+    rcols = prov.get_default_column_names(_Attr(ent2, second), pks)
+    if len(rcols) != len(pks): return False
+    for c in cols1 + cols2 + rcols:
+        if not good_name(prov, pname, c, lim): return False
+    schema = prov.dbschema_cls(prov)
+    conv = Conv(int, prov)
+    tab = schema.add_table(tname)
+    try:
+        for c in cols1 + cols2: tab.add_column(c, 'INTEGER', conv, True)
+    except DBSchemaError:
+        return not all_distinct(cols1 + cols2)
+    return all_distinct([c.name for c in tab.column_list]) and len(tab.column_list) == 2 * len(pks)
+
+
+def _m2m_h(pname, e1, x, sym, npk, p1):
     # default intermediate-table name and its column names for a many-to-many pair; the columns go through the real
     # Table.add_column of a real m2m table: either all distinct and within the limit or rejected (DBSchemaError)
-    pname = DIALECTS[conc(dialect, 4)]
-    n1, n2, an = POOL[conc(e1, 12)], POOL[conc(e2, 12)], POOL1[conc(a1, 3)]
-    sym, npk = cbool(sym), conc(npk - 1, 2) + 1
-    pk1, pk2 = POOL1[conc(p1, 3)], POOL1[conc(p2, 3)]
-    lim = 4 if limit == 0 else 6
+    n1, second, sym, npk, pk1 = POOL[conc(e1, NP)], POOL[conc(x, NP)], cbool(sym), conc(npk - 1, 2) + 1, POOL1[conc(p1, NP1)]
     with NoTracing():
-        prov = provider(pname, lim)
-        pks = [pk1] if npk == 1 else [pk1, pk2 + '2']
-        ent1, ent2 = _Ent(n1, pks), _Ent(n2, pks)
-        if sym:
-            attr = _Attr(ent1, an, True)
-            tname = prov.get_default_m2m_table_name(attr, attr)
-            expected = n1 + '_' + an
-        else:
-            tname = prov.get_default_m2m_table_name(_Attr(ent1, an), _Attr(ent2, an))
-            expected = n1 + '_' + n2
-        if not (good_name(prov, pname, tname, lim) and tname == fold(pname, expected[:lim])): return ok(False)
-        cols1 = prov.get_default_m2m_column_names(ent1)
-        cols2 = prov.get_default_m2m_column_names(ent2)
-        if not (len(cols1) == len(pks) == len(cols2)): return ok(False)
-        for c in cols1 + cols2:
-            if not good_name(prov, pname, c, lim): return ok(False)
-        # relationship columns of a composite reference (attr_name + '_' + pk column)
-        rcols = prov.get_default_column_names(_Attr(ent1, an), pks)
-        if len(rcols) != len(pks): return ok(False)
-        for c in rcols:
-            if not good_name(prov, pname, c, lim): return ok(False)
-        schema = prov.dbschema_cls(prov)
-        conv = Conv(int, prov)
-        tab = schema.add_table(tname)
-        try:
-            for c in cols1 + cols2: tab.add_column(c, 'INTEGER', conv, True)
-        except DBSchemaError:
-            return ok(not all_distinct(cols1 + cols2))
-        return ok(all_distinct([c.name for c in tab.column_list]) and len(tab.column_list) == 2 * len(pks))
+        return ok(_m2m(pname, n1, second, sym, npk, pk1, 4))
+
+
+def m2m_names_sqlite(e1: int, x: int, sym: bool, npk: int, p1: int) -> bool:
+    """
+    pre: 0 <= e1 < NP and 0 <= x < NP and 1 <= npk <= 2 and 0 <= p1 < NP1
+    post: _
+    """
+    return _m2m_h('sqlite', e1, x, sym, npk, p1)
+
+
+def m2m_names_postgres(e1: int, x: int, sym: bool, npk: int, p1: int) -> bool:
+    """
+    pre: 0 <= e1 < NP and 0 <= x < NP and 1 <= npk <= 2 and 0 <= p1 < NP1
+    post: _
+    """
+    return _m2m_h('postgres', e1, x, sym, npk, p1)
+
+
+def m2m_names_mysql(e1: int, x: int, sym: bool, npk: int, p1: int) -> bool:
+    """
+    pre: 0 <= e1 < NP and 0 <= x < NP and 1 <= npk <= 2 and 0 <= p1 < NP1
+    post: _
+    """
+    return _m2m_h('mysql', e1, x, sym, npk, p1)
+
+
+def m2m_names_oracle(e1: int, x: int, sym: bool, npk: int, p1: int) -> bool:
+    """
+    pre: 0 <= e1 < NP and 0 <= x < NP and 1 <= npk <= 2 and 0 <= p1 < NP1
+    post: _
+    """
+    return _m2m_h('oracle', e1, x, sym, npk, p1)
 
 
 # ---------------------------------------------------------------------------------------------------------------
@@ -434,42 +468,545 @@ def _column_line(pname, name, pk, unique, not_null, default, fk, action, is_int)
     return True
 
 
-def _column(pname, s, pk, unique, not_null, default, fk, action, is_int):
-    pk, default, action = conc(pk, 3), conc(default, 3), conc(action, 3)
-    return ok(_column_line(pname, s, pk, cbool(unique), cbool(not_null), default, cbool(fk), action, cbool(is_int)))
+COLNAMES = ('a', 'a"b', '`', 'A b')
 
 
-def column_sqlite(s: str, pk: int, unique: bool, not_null: bool, default: int, fk: bool, action: int, is_int: bool) -> bool:
+def _column(pname, nm, pk, unique, not_null, default, fk, action, is_int):
+    nm, pk, default, action = COLNAMES[conc(nm, 4)], conc(pk, 3), conc(default, 3), conc(action, 3)
+    unique, not_null, fk, is_int = cbool(unique), cbool(not_null), cbool(fk), cbool(is_int)
+    with NoTracing():
+        return ok(_column_line(pname, nm, pk, unique, not_null, default, fk, action, is_int))
+
+
+def column_sqlite(nm: int, pk: int, unique: bool, not_null: bool, default: int, fk: bool, action: int, is_int: bool) -> bool:
     """
-    pre: 0 <= pk <= 2 and 0 <= default <= 2 and 0 <= action <= 2
-    pre: 1 <= len(s) <= 2 and all(c in 'a"` ' for c in s)
+    pre: 0 <= pk <= 2 and 0 <= default <= 2 and 0 <= action <= 2 and 0 <= nm <= 3
     post: _
     """
-    return _column('sqlite', s, pk, unique, not_null, default, fk, action, is_int)
+    return _column('sqlite', nm, pk, unique, not_null, default, fk, action, is_int)
 
 
-def column_postgres(s: str, pk: int, unique: bool, not_null: bool, default: int, fk: bool, action: int, is_int: bool) -> bool:
+def column_postgres(nm: int, pk: int, unique: bool, not_null: bool, default: int, fk: bool, action: int, is_int: bool) -> bool:
     """
-    pre: 0 <= pk <= 2 and 0 <= default <= 2 and 0 <= action <= 2
-    pre: 1 <= len(s) <= 2 and all(c in 'a"` ' for c in s)
+    pre: 0 <= pk <= 2 and 0 <= default <= 2 and 0 <= action <= 2 and 0 <= nm <= 3
     post: _
     """
-    return _column('postgres', s, pk, unique, not_null, default, fk, action, is_int)
+    return _column('postgres', nm, pk, unique, not_null, default, fk, action, is_int)
 
 
-def column_mysql(s: str, pk: int, unique: bool, not_null: bool, default: int, fk: bool, action: int, is_int: bool) -> bool:
+def column_mysql(nm: int, pk: int, unique: bool, not_null: bool, default: int, fk: bool, action: int, is_int: bool) -> bool:
     """
-    pre: 0 <= pk <= 2 and 0 <= default <= 2 and 0 <= action <= 2
-    pre: 1 <= len(s) <= 2 and all(c in 'a"` ' for c in s)
+    pre: 0 <= pk <= 2 and 0 <= default <= 2 and 0 <= action <= 2 and 0 <= nm <= 3
     post: _
     """
-    return _column('mysql', s, pk, unique, not_null, default, fk, action, is_int)
+    return _column('mysql', nm, pk, unique, not_null, default, fk, action, is_int)
 
 
-def column_oracle(s: str, pk: int, unique: bool, not_null: bool, default: int, fk: bool, action: int, is_int: bool) -> bool:
+def column_oracle(nm: int, pk: int, unique: bool, not_null: bool, default: int, fk: bool, action: int, is_int: bool) -> bool:
     """
-    pre: 0 <= pk <= 2 and 0 <= default <= 2 and 0 <= action <= 2
-    pre: 1 <= len(s) <= 2 and all(c in 'a"` ' for c in s)
+    pre: 0 <= pk <= 2 and 0 <= default <= 2 and 0 <= action <= 2 and 0 <= nm <= 3
     post: _
     """
-    return _column('oracle', s, pk, unique, not_null, default, fk, action, is_int)
+    return _column('oracle', nm, pk, unique, not_null, default, fk, action, is_int)
+
+
+def _table_ddl(pname, pk2, uniq2, uniq1, idx, fk, action, t_ix):
+    """a table with columns a, b, c: primary key (a) or (a, b); optional composite unique (b, c), single unique (c),
+    plain index (c) or (b, c); optional foreign key (b) or (b, c) to a parent table"""
+    prov = provider(pname, None)
+    schema = prov.dbschema_cls(prov)
+    conv = Conv(int, prov)
+    q = prov.quote_char
+    def qn(n): return q + n + q
+    def cl(*ns): return '(' + ', '.join(qn(n) for n in ns) + ')'
+    parent = schema.add_table('P')
+    p1 = parent.add_column('x', 'INTEGER', conv, True)
+    p2 = parent.add_column('y', 'INTEGER', conv, True)
+    parent.add_index(None, (p1, p2), is_pk=True)
+    tab = schema.add_table('T')
+    a = tab.add_column('a', 'INTEGER', conv, True)
+    b = tab.add_column('b', 'INTEGER', conv, True)
+    c = tab.add_column('c', 'INTEGER', conv, False)
+    tab.add_index(None, (a, b) if pk2 else (a,), is_pk=True)
+    if uniq2: u2 = tab.add_index(None, (b, c), is_unique=True)
+    if uniq1: tab.add_index(None, (c,), is_unique=True)
+    ix = None
+    if idx == 1 and not uniq1: ix = tab.add_index(None, (c,), is_unique=False)
+    if idx == 2 and not uniq2: ix = tab.add_index(None, (c, b), is_unique=False)
+    on_delete = ACTIONS[action]
+    fkey = None
+    if fk == 1: fkey = tab.add_foreign_key(None, (b,), parent, (p1,), False, on_delete)
+    if fk == 2: fkey = tab.add_foreign_key(None, (b, c), parent, (p1, p2), None if t_ix else False, on_delete)
+    auto_ix = [i for i in tab.indexes.values() if i is not ix and not i.is_pk and not i.is_unique]
+    created = set([parent])
+    objs = tab.get_objects_to_create(created)
+    if objs[0] is not tab or tab not in created: return False
+    ddl = tab.get_create_command()
+    lines = ddl.split('\n')
+    if lines[0] != 'CREATE TABLE ' + qn('T') + ' (' or lines[-1] != ')': return False
+    body = lines[1:-1]
+    if any(not l.startswith('  ') for l in body): return False
+    body = [l[2:] for l in body]
+    if any(not l.endswith(',') for l in body[:-1]) or body[-1].endswith(','): return False
+    body = [l.rstrip(',') for l in body]
+    cols, rest = body[:3], body[3:]
+    if [l.split(' ')[0] for l in cols] != [qn('a'), qn('b'), qn('c')]: return False
+    # primary key: composite as a table constraint, single inside the column line
+    pk_line = 'PRIMARY KEY ' + cl('a', 'b')
+    if (pk_line in rest) != bool(pk2): return False
+    if ('PRIMARY KEY' in cols[0]) == bool(pk2): return False
+    if 'PRIMARY KEY' in cols[1] or 'PRIMARY KEY' in cols[2]: return False
+    # nullability as declared (a, b not null; c nullable)
+    if 'NOT NULL' in cols[2] or 'NOT NULL' not in cols[1]: return False
+    if not pk2 and pname == 'sqlite' and 'NOT NULL' not in cols[0]: return False
+    if pk2 and 'NOT NULL' not in cols[0]: return False
+    # unique constraints
+    if ('UNIQUE' in cols[2]) != bool(uniq1): return False
+    if 'UNIQUE' in cols[0] or 'UNIQUE' in cols[1]: return False
+    want_u2 = ('CONSTRAINT ' + qn(u2.name) + ' UNIQUE ' + cl('b', 'c')) if uniq2 else None
+    if uniq2 and want_u2 not in rest: return False
+    if sum(1 for l in rest if 'UNIQUE' in l) != (1 if uniq2 else 0): return False
+    # plain indexes are separate objects, created after the table
+    sep_ix = [o for o in objs[1:] if isinstance(o, dbschema.DBIndex)]
+    want_ix = ([ix] if ix is not None else []) + auto_ix
+    if sorted(id(o) for o in sep_ix) != sorted(id(o) for o in want_ix): return False
+    if fk == 2 and t_ix and not uniq2 and not auto_ix: return False      # child columns (b, c) need an index
+    for o in sep_ix:
+        cmd = o.get_create_command()
+        if cmd != 'CREATE INDEX ' + qn(o.name) + ' ON ' + qn('T') + ' ' + cl(*[col.name for col in o.columns]): return False
+    if any('INDEX' in l for l in rest): return False
+    # foreign key
+    fk_objs = [o for o in objs[1:] if isinstance(o, dbschema.ForeignKey)]
+    tail = (' ON DELETE ' + on_delete) if on_delete else ''
+    if fkey is None:
+        return not fk_objs and not any('REFERENCES' in l for l in body)
+    ccols, pcols = (('b',), ('x',)) if fk == 1 else (('b', 'c'), ('x', 'y'))
+    if schema.named_foreign_keys:
+        if fk_objs != [fkey] or any('REFERENCES' in l for l in body): return False
+        return fkey.get_create_command() == ('ALTER TABLE ' + qn('T') + ' ADD CONSTRAINT ' + qn(fkey.name) + ' FOREIGN KEY ' + cl(*ccols)
+                                             + ' REFERENCES ' + qn('P') + ' ' + cl(*pcols) + tail)
+    # SQLite: inside CREATE TABLE, inline for one column, table-level otherwise
+    if fk_objs: return False
+    clause = 'REFERENCES ' + qn('P') + ' ' + cl(*pcols) + tail
+    if fk == 1:
+        return cols[1].endswith(' ' + clause) and sum(1 for l in body if 'REFERENCES' in l) == 1
+    return ('FOREIGN KEY ' + cl(*ccols) + ' ' + clause) in rest and sum(1 for l in body if 'REFERENCES' in l) == 1
+
+
+def table_ddl(dialect: int, pk2: bool, uniq2: bool, uniq1: bool, idx: int, fk: int, action: int, t_ix: bool) -> bool:
+    """
+    pre: 0 <= dialect < 4 and 0 <= idx <= 2 and 0 <= fk <= 2 and 0 <= action <= 2
+    post: _
+    """
+    pname = DIALECTS[conc(dialect, 4)]
+    pk2, uniq2, uniq1, t_ix = cbool(pk2), cbool(uniq2), cbool(uniq1), cbool(t_ix)
+    idx, fk, action = conc(idx, 3), conc(fk, 3), conc(action, 3)
+    with NoTracing():
+        return ok(_table_ddl(pname, pk2, uniq2, uniq1, idx, fk, action, t_ix))
+
+
+# ---------------------------------------------------------------------------------------------------------------
+# 3. creation order
+# ---------------------------------------------------------------------------------------------------------------
+
+def _acyclic(n, adj):
+    """Kahn's algorithm on adj[child][parent]"""
+    left = set(range(n))
+    while left:
+        free = [i for i in left if not any(adj[i][j] and j in left for j in range(n) if j != i)]
+        if not free: return False
+        left -= set(free)
+    return True
+
+
+def _order(pname, n, adj, qual=None):
+    """adj[i][j]: table i has a foreign key to table j (i == j: self reference); qual[i]: the table name is qualified"""
+    prov = provider(pname, None)
+    schema = prov.dbschema_cls(prov)
+    conv = Conv(int, prov)
+    tabs, ids = [], []
+    for i in range(n):
+        t = schema.add_table(('main' if pname == 'sqlite' else 'public', 'T%d' % i) if qual and qual[i] else 'T%d' % i)
+        c = t.add_column('id', 'INTEGER', conv, True)
+        t.add_index(None, (c,), is_pk=True)
+        tabs.append(t); ids.append(c)
+    fks = []
+    for i in range(n):
+        for j in range(n):
+            if adj[i][j]:
+                c = tabs[i].add_column('r%d' % j, 'INTEGER', conv, True)
+                fks.append(tabs[i].add_foreign_key(None, (c,), tabs[j], (ids[j],)))
+    # the relation the real constructors derived must be the declared one
+    for i in range(n):
+        if tabs[i].parent_tables != set(tabs[j] for j in range(n) if j != i and adj[i][j]): return False
+    order = schema.order_tables_to_create()
+    if len(order) != n or set(order) != set(tabs): return False
+    pos = {t: k for k, t in enumerate(order)}
+    if _acyclic(n, adj):
+        for i in range(n):
+            for j in range(n):
+                if i != j and adj[i][j] and not pos[tabs[j]] < pos[tabs[i]]: return False
+    # objects in emission order (what generate_create_script / create_tables iterate over)
+    created, objs = set(), []
+    for t in order: objs.extend(t.get_objects_to_create(created))
+    seen_tables = set()
+    emitted = []
+    for o in objs:
+        if isinstance(o, dbschema.Table):
+            if o in seen_tables: return False
+            seen_tables.add(o)
+        elif isinstance(o, dbschema.ForeignKey):
+            if o.child_table not in seen_tables or o.parent_table not in seen_tables: return False
+            emitted.append(o)
+        elif isinstance(o, dbschema.DBIndex):
+            if o.table not in seen_tables: return False
+    if seen_tables != set(tabs): return False
+    if schema.named_foreign_keys:
+        if len(emitted) != len(fks) or set(emitted) != set(fks): return False
+    elif emitted: return False
+    script = schema.generate_create_script()
+    return len(script.split(schema.command_separator)) == len(objs)
+
+
+def order3(dialect: bool, e01: bool, e02: bool, e10: bool, e12: bool, e20: bool, e21: bool, s0: bool, s1: bool, s2: bool) -> bool:
+    """ post: _ """
+    pname = 'postgres' if dialect else 'sqlite'
+    adj = [[cbool(s0), cbool(e01), cbool(e02)], [cbool(e10), cbool(s1), cbool(e12)], [cbool(e20), cbool(e21), cbool(s2)]]
+    with NoTracing():
+        return ok(_order(pname, 3, adj))
+
+
+def order_qualified(dialect: bool, q0: bool, q1: bool, q2: bool, e01: bool, e10: bool, e12: bool, e21: bool, e02: bool) -> bool:
+    """ post: _ """
+    # schema-qualified table names ('main', 'T') / ('public', 'T') mixed with plain ones: _table_ accepts both
+    pname = 'postgres' if dialect else 'sqlite'
+    adj = [[False, cbool(e01), cbool(e02)], [cbool(e10), False, cbool(e12)], [False, cbool(e21), False]]
+    qual = [cbool(q0), cbool(q1), cbool(q2)]
+    with NoTracing():
+        return ok(_order(pname, 3, adj, qual))
+
+
+def _order4(d, e01, e10, e02, e03, e12, e13, e20, e21, e23, e30, e31, e32):
+    pname = 'sqlite' if (THOROUGH and d) else 'postgres'       # quick: named foreign keys only (d is not looked at)
+    adj = [[False, e01, cbool(e02), cbool(e03)], [e10, False, cbool(e12), cbool(e13)],
+           [cbool(e20), cbool(e21), False, cbool(e23)], [cbool(e30), cbool(e31), cbool(e32), False]]
+    with NoTracing():
+        return ok(_order(pname, 4, adj))
+
+
+def order4_a(d: bool, e02: bool, e03: bool, e12: bool, e13: bool, e20: bool, e21: bool, e23: bool, e30: bool, e31: bool, e32: bool) -> bool:
+    """ post: _ """
+    return _order4(d, False, False, e02, e03, e12, e13, e20, e21, e23, e30, e31, e32)
+
+
+def order4_b(d: bool, e02: bool, e03: bool, e12: bool, e13: bool, e20: bool, e21: bool, e23: bool, e30: bool, e31: bool, e32: bool) -> bool:
+    """ post: _ """
+    return _order4(d, False, True, e02, e03, e12, e13, e20, e21, e23, e30, e31, e32)
+
+
+def order4_c(d: bool, e02: bool, e03: bool, e12: bool, e13: bool, e20: bool, e21: bool, e23: bool, e30: bool, e31: bool, e32: bool) -> bool:
+    """ post: _ """
+    return _order4(d, True, False, e02, e03, e12, e13, e20, e21, e23, e30, e31, e32)
+
+
+def order4_d(d: bool, e02: bool, e03: bool, e12: bool, e13: bool, e20: bool, e21: bool, e23: bool, e30: bool, e31: bool, e32: bool) -> bool:
+    """ post: _ """
+    return _order4(d, True, True, e02, e03, e12, e13, e20, e21, e23, e30, e31, e32)
+
+
+# ---------------------------------------------------------------------------------------------------------------
+# 4. whole mappings (real Database.generate_mapping over a provider with a lowered name limit; no backend)
+# ---------------------------------------------------------------------------------------------------------------
+
+LIMIT_M = 10
+_mock_cls = {}
+
+
+def mock_db(pname, limit):
+    """engine.env.mock_database with max_name_len lowered"""
+    import importlib
+    from pony.orm import Database
+    if (pname, limit) not in _mock_cls:
+        base = importlib.import_module('pony.orm.dbproviders.' + pname).provider_cls
+        ns = dict(json1_available=False, server_version=E0.SERVER_VERSIONS[pname], inspect_connection=lambda provider, connection: None)
+        if limit is not None: ns['max_name_len'] = limit
+        _mock_cls[(pname, limit)] = type(base.__name__, (base,), ns)
+    db = Database()
+    args = (':memory:',) if pname == 'sqlite' else ()
+    db._bind(_mock_cls[(pname, limit)], *args, pony_pool_mockup=E0.FakePool())
+    return db
+
+
+REJECTED = (core.MappingError, core.DBSchemaError, core.ERDiagramError)
+
+
+def _check_schema(db, pname, limit, expect_cols):
+    """shared assertions on a generated schema: names, and the schema matches the entity model"""
+    prov, schema = db.provider, db.schema
+    names = schema_names(schema)
+    if not all_distinct(names): return False
+    for n in names:
+        if not good_name(prov, pname, n, limit): return False
+    for t in schema.tables.values():
+        cn = [c.name for c in t.column_list]
+        if not all_distinct(cn): return False
+        for n in cn:
+            if not good_name(prov, pname, n, limit): return False
+        if t.pk_index is None: return False
+    total = 0
+    for ent in db.entities.values():
+        t = schema.tables[ent._table_]
+        if tuple(c.name for c in t.pk_index.columns) != tuple(ent._pk_columns_): return False
+        for attr in ent._new_attrs_:
+            if attr.is_collection:
+                if attr.reverse.is_collection:
+                    mt = schema.tables[attr.table]
+                    # intermediate table: primary key over all columns, a cascading foreign key per side
+                    if tuple(mt.pk_index.columns) != tuple(mt.column_list): return False
+                    if len(mt.column_list) != len(ent._pk_columns_) + len(attr.reverse.entity._pk_columns_): return False
+                    if len(mt.foreign_keys) != 2: return False
+                    for fk in mt.foreign_keys.values():
+                        if fk.on_delete != 'CASCADE' or fk.parent_columns != fk.parent_table.pk_index.columns: return False
+                continue
+            cols = attr.columns
+            total += len(cols)
+            for cname in cols:
+                col = t.column_dict.get(cname)
+                if col is None: return False
+                # nullability as declared: Required -> NOT NULL; Optional -> NULL, except strings (stored as '' ) outside Oracle
+                # (an optional string that is unique or part of a composite key/index is nullable as well)
+                in_index = attr.is_unique or any(attr in ix.attrs for ix in ent._indexes_)
+                if attr.is_required: want_nn = True
+                elif attr.py_type is str and pname != 'oracle' and not in_index: want_nn = True
+                else: want_nn = False
+                if bool(col.is_not_null) != want_nn and not col.is_pk: return False
+            cobjs = tuple(t.column_dict[c] for c in cols)
+            if not cols: continue
+            if attr.is_unique and not attr.is_pk:
+                ix = t.indexes.get(cobjs)
+                if ix is None or not ix.is_unique: return False
+            if attr.index and not attr.is_unique:
+                if not any(k[:len(cobjs)] == cobjs for k in t.indexes): return False
+            if attr.reverse:
+                fk = t.foreign_keys.get(cobjs)
+                pt = schema.tables[attr.reverse.entity._table_]
+                if fk is None or fk.parent_table is not pt or fk.parent_columns != pt.pk_index.columns: return False
+                want = 'CASCADE' if attr.reverse.cascade_delete else ('SET NULL' if not attr.is_required else None)
+                if fk.on_delete != want: return False
+                if not any(k[:len(cobjs)] == cobjs for k in t.indexes): return False
+        for key in ent._keys_:
+            cobjs = tuple(t.column_dict[c] for a in key for c in a.columns)
+            ix = t.indexes.get(cobjs)
+            if ix is None or not ix.is_unique: return False
+    ntab = sum(len(t.column_list) for t in schema.tables.values() if t.entities)
+    if total != ntab or (expect_cols is not None and total != expect_cols): return False
+    # DDL: one column line per column, every statement mentions only names within the limit (checked above)
+    script = schema.generate_create_script()
+    cmds = script.split(schema.command_separator)
+    n_create = sum(1 for c in cmds if c.startswith('CREATE TABLE '))
+    if n_create != len(schema.tables): return False
+    for t in schema.tables.values():
+        ddl = t.get_create_command()
+        lines = [l for l in ddl.split('\n')[1:] if l.startswith('  ' + prov.quote_char)]
+        if len(lines) != len(t.column_list): return False
+    return True
+
+
+def define(db, name, lines):
+    """class <name>(db.Entity) with the given body lines (a class statement: PrimaryKey(a, b) / composite_key need the
+    class namespace of a real class body)"""
+    from pony import orm
+    ns = dict(vars(orm)); ns['db'] = db
+    src = 'class %s(db.Entity):\n' % name + ''.join('    %s\n' % l for l in (lines or ['pass']))
+    exec(src, ns)
+    return ns[name]
+
+
+def _mapping_rel(pname, la, lb, pk2, rel1, rel2, self_rel):
+    db = mock_db(pname, LIMIT_M)
+    NA, NB = 'A' + 'a' * (la - 1), 'B' + 'b' * (lb - 1)
+    A, B = [], []
+    ncols = 0
+    if pk2:
+        A += ['x = Required(int)', 'y = Required(int)', 'PrimaryKey(x, y)']
+        npk = 2
+    else: npk = 1
+    ncols += npk + 1                           # A's key + B's id
+    S = dict(NA=NA, NB=NB)
+    if rel1 == 1: B.append('a = Required("%(NA)s")' % S); A.append('bs = Set("%(NB)s")' % S); ncols += npk
+    elif rel1 == 2: B.append('a = Optional("%(NA)s")' % S); A.append('bs = Set("%(NB)s")' % S); ncols += npk
+    elif rel1 == 3: B.append('as1 = Set("%(NA)s", reverse="bs1")' % S); A.append('bs1 = Set("%(NB)s", reverse="as1")' % S)
+    if rel2 == 1: B.append('as2 = Set("%(NA)s", reverse="bs2")' % S); A.append('bs2 = Set("%(NB)s", reverse="as2")' % S)
+    elif rel2 == 2:
+        B.append('longer_ref = Optional("%(NA)s", reverse="longer_set")' % S); A.append('longer_set = Set("%(NB)s", reverse="longer_ref")' % S)
+        ncols += npk
+    if self_rel == 1: A.append('friends = Set("%(NA)s", reverse="friends")' % S)
+    elif self_rel == 2:
+        A.append('parent = Optional("%(NA)s", reverse="children")' % S); A.append('children = Set("%(NA)s", reverse="parent")' % S)
+        ncols += npk
+    elif self_rel == 3: A.append('s1 = Set("%(NA)s", reverse="s2")' % S); A.append('s2 = Set("%(NA)s", reverse="s1")' % S)
+    try:
+        define(db, NA, A)
+        define(db, NB, B)
+        db.generate_mapping(check_tables=False, create_tables=False)
+    except REJECTED:
+        return True
+    return _check_schema(db, pname, LIMIT_M, ncols)
+
+
+def _mapping_rel_h(pname, la, lb, pk2, rel1, rel2, self_rel):
+    la, lb = (1, 5, 9)[conc(la, 3)], (1, 5, 9)[conc(lb, 3)]
+    pk2, rel1, rel2, self_rel = cbool(pk2), conc(rel1, 4), conc(rel2, 3), conc(self_rel, 4)
+    with NoTracing():
+        return ok(_mapping_rel(pname, la, lb, pk2, rel1, rel2, self_rel))
+
+
+def mapping_rel_sqlite(la: int, lb: int, pk2: bool, rel1: int, rel2: int, self_rel: int) -> bool:
+    """
+    pre: 0 <= la <= 2 and 0 <= lb <= 2 and 0 <= rel1 <= 3 and 0 <= rel2 <= 2 and 0 <= self_rel <= 3
+    post: _
+    """
+    return _mapping_rel_h('sqlite', la, lb, pk2, rel1, rel2, self_rel)
+
+
+def mapping_rel_postgres(la: int, lb: int, pk2: bool, rel1: int, rel2: int, self_rel: int) -> bool:
+    """
+    pre: 0 <= la <= 2 and 0 <= lb <= 2 and 0 <= rel1 <= 3 and 0 <= rel2 <= 2 and 0 <= self_rel <= 3
+    post: _
+    """
+    return _mapping_rel_h('postgres', la, lb, pk2, rel1, rel2, self_rel)
+
+
+def mapping_rel_mysql(la: int, lb: int, pk2: bool, rel1: int, rel2: int, self_rel: int) -> bool:
+    """
+    pre: 0 <= la <= 2 and 0 <= lb <= 2 and 0 <= rel1 <= 3 and 0 <= rel2 <= 2 and 0 <= self_rel <= 3
+    post: _
+    """
+    return _mapping_rel_h('mysql', la, lb, pk2, rel1, rel2, self_rel)
+
+
+def mapping_rel_oracle(la: int, lb: int, pk2: bool, rel1: int, rel2: int, self_rel: int) -> bool:
+    """
+    pre: 0 <= la <= 2 and 0 <= lb <= 2 and 0 <= rel1 <= 3 and 0 <= rel2 <= 2 and 0 <= self_rel <= 3
+    post: _
+    """
+    return _mapping_rel_h('oracle', la, lb, pk2, rel1, rel2, self_rel)
+
+
+ATTR_NAMES = ('v', 'value_one', 'value_one_b', 'Value_one_c')     # the last three share their first 9 characters (case apart)
+
+
+def _mapping_attr(pname, n1, n2, kind1, kind2, opt1, is_str, composite):
+    """one entity, two data attributes whose default column names may collide after truncation / case folding, with
+    unique / index / composite key / composite index declarations"""
+    db = mock_db(pname, LIMIT_M)
+    kw = ('', ', unique=True', ', index=True')
+    body = ['%s = %s(%s%s)' % (ATTR_NAMES[n1], 'Optional' if opt1 else 'Required', 'str' if is_str else 'int', kw[kind1])]
+    if n2 != n1:
+        body.append('%s = Required(int%s)' % (ATTR_NAMES[n2], kw[kind2]))
+        if composite == 1: body.append('composite_key(%s, %s)' % (ATTR_NAMES[n1], ATTR_NAMES[n2]))
+        elif composite == 2: body.append('composite_index(%s, %s)' % (ATTR_NAMES[n2], ATTR_NAMES[n1]))
+    try:
+        define(db, 'Ent', body)
+        db.generate_mapping(check_tables=False, create_tables=False)
+    except REJECTED:
+        # a collision of two generated names is the only reason these declarations can be refused
+        prov = db.provider
+        ixn = _index_names(prov, n1, n2, kind1, kind2, composite)
+        return n2 != n1 and (prov.normalize_name(ATTR_NAMES[n1]) == prov.normalize_name(ATTR_NAMES[n2]) or not all_distinct(ixn))
+    return _check_schema(db, pname, LIMIT_M, 1 + (1 if n2 == n1 else 2))
+
+
+def _index_names(prov, n1, n2, kind1, kind2, composite):
+    t = prov.normalize_name('Ent')
+    c1, c2 = prov.normalize_name(ATTR_NAMES[n1]), prov.normalize_name(ATTR_NAMES[n2])
+    out = []
+    if kind1: out.append(prov.get_default_index_name(t, (c1,), is_unique=(kind1 == 1)))
+    if kind2: out.append(prov.get_default_index_name(t, (c2,), is_unique=(kind2 == 1)))
+    if composite == 1: out.append(prov.get_default_index_name(t, (c1, c2), is_unique=True))
+    if composite == 2: out.append(prov.get_default_index_name(t, (c2, c1), is_unique=False))
+    return out
+
+
+def _mapping_attr_h(pname, n1, n2, kind1, kind2, a1, composite):
+    n1, n2, kind1, kind2, composite, a1 = conc(n1, 4), conc(n2, 4), conc(kind1, 3), conc(kind2, 3), conc(composite, 3), conc(a1, 3)
+    with NoTracing():
+        return ok(_mapping_attr(pname, n1, n2, kind1, kind2, a1 != 0, a1 == 2, composite))
+
+
+def mapping_attr_sqlite(n1: int, n2: int, kind1: int, kind2: int, a1: int, composite: int) -> bool:
+    """
+    pre: 0 <= n1 <= 3 and 0 <= n2 <= 3 and 0 <= kind1 <= 2 and 0 <= kind2 <= 2 and 0 <= composite <= 2 and 0 <= a1 <= 2
+    post: _
+    """
+    return _mapping_attr_h('sqlite', n1, n2, kind1, kind2, a1, composite)
+
+
+def mapping_attr_postgres(n1: int, n2: int, kind1: int, kind2: int, a1: int, composite: int) -> bool:
+    """
+    pre: 0 <= n1 <= 3 and 0 <= n2 <= 3 and 0 <= kind1 <= 2 and 0 <= kind2 <= 2 and 0 <= composite <= 2 and 0 <= a1 <= 2
+    post: _
+    """
+    return _mapping_attr_h('postgres', n1, n2, kind1, kind2, a1, composite)
+
+
+def mapping_attr_mysql(n1: int, n2: int, kind1: int, kind2: int, a1: int, composite: int) -> bool:
+    """
+    pre: 0 <= n1 <= 3 and 0 <= n2 <= 3 and 0 <= kind1 <= 2 and 0 <= kind2 <= 2 and 0 <= composite <= 2 and 0 <= a1 <= 2
+    post: _
+    """
+    return _mapping_attr_h('mysql', n1, n2, kind1, kind2, a1, composite)
+
+
+def mapping_attr_oracle(n1: int, n2: int, kind1: int, kind2: int, a1: int, composite: int) -> bool:
+    """
+    pre: 0 <= n1 <= 3 and 0 <= n2 <= 3 and 0 <= kind1 <= 2 and 0 <= kind2 <= 2 and 0 <= composite <= 2 and 0 <= a1 <= 2
+    post: _
+    """
+    return _mapping_attr_h('oracle', n1, n2, kind1, kind2, a1, composite)
+
+
+def _oracle_objects(n1, n2, own, auto2, lim, check_len):
+    if n1 == n2: return True
+    prov = provider('oracle', lim)
+    schema = prov.dbschema_cls(prov)
+    class A(object): kwargs = {}
+    conv = Conv(int, prov); conv.attr = A()
+    objs, created = [], set()
+    for n, auto in ((n1, True), (n2, auto2)):
+        t = schema.add_table(n if own is None else (own, n))
+        c = t.add_column('id', 'NUMBER(10)', conv, True)
+        t.add_index(None, (c,), is_pk='auto' if auto else True)
+    for t in schema.order_tables_to_create(): objs.extend(t.get_objects_to_create(created))
+    names = [o.name for o in objs]
+    if len(objs) != 2 + 2 * (2 if auto2 else 1): return False
+    if not all_distinct(names): return False
+    for o in objs:
+        if check_len and len(prov.base_name(o.name)) > lim: return False
+        if not isinstance(o.get_create_command(), str): return False
+    return True
+
+
+def oracle_auto_pk_names(t1: int, t2: int, auto2: bool, limit: int) -> bool:
+    """
+    pre: 0 <= t1 < NP and 0 <= t2 < NP and 0 <= limit <= 1
+    post: _
+    """
+    # Oracle: an auto primary key adds a sequence and a trigger per table (OraTable.get_objects_to_create); all created
+    # objects need pairwise different names within the limit (table names here are within it)
+    n1, n2, auto2 = POOL[conc(t1, NP)], POOL[conc(t2, NP)], cbool(auto2)
+    lim = 5 if limit == 0 else 30
+    with NoTracing():
+        return ok(_oracle_objects(n1, n2, None, auto2, lim, True))
+
+
+def oracle_auto_pk_names_owner(t1: int, t2: int, owner: int, auto2: bool) -> bool:
+    """
+    pre: 0 <= t1 < NP and 0 <= t2 < NP and 0 <= owner <= 1
+    post: _
+    """
+    # same with owner-qualified table names ('owner', 'table'): names must still differ per table
+    n1, n2, auto2 = POOL[conc(t1, NP)], POOL[conc(t2, NP)], cbool(auto2)
+    own = 'o' if owner == 0 else 'own'
+    with NoTracing():
+        return ok(_oracle_objects(n1, n2, own, auto2, 30, False))
